@@ -5,6 +5,8 @@
 -/
 import CSD.Lemmas.VByte
 import CSD.Lemmas.LogSeq
+import CSD.Lemmas.LogSeqIO
+import CSD.Lemmas.DAC
 
 namespace CSD.Props.C17
 open CSD
@@ -72,6 +74,34 @@ theorem logseq_unfixed_mask_differs : LogSeq.lowMaskX86 64 ≠ LogSeq.lowMask 64
   · decide
   · intro w hw
     simp [LogSeq.lowMaskX86, LogSeq.lowMask, Nat.mod_eq_of_lt hw]
+
+/-- `LogSequence(vector, w)` (what every dictionary's positional index is built with): the
+constructor succeeds whenever the values fit in `w` bits, and every field reads back its value. -/
+theorem logseq_vector_constructor (vs : List Nat) (w : Nat) (hw1 : 1 ≤ w) (hw : w ≤ 64)
+    (hv : ∀ v ∈ vs, v ≤ LogSeq.maxVal w) :
+    ∃ s, LogSeq.ofList vs w = some s ∧ s.numentries = vs.length ∧
+      ∀ j (hj : j < vs.length), s.get j = some (BitVec.ofNat 64 vs[j]) := by
+  obtain ⟨s, hs, f⟩ := LogSeq.ofList_spec vs w hw1 hw hv
+  exact ⟨s, hs, f.ne, fun j hj => f.got j hj hj⟩
+
+/-- LogSequence on bytes: `load ∘ save = id`, consuming exactly the image. -/
+theorem logseq_load_save (s : LogSeq.T) (hb : s.numbits < 256) (hn : s.numentries < 2 ^ 64)
+    (hd : s.data.length = LogSeq.numWords s.numbits s.numentries) (rest : List UInt8) :
+    LogSeq.load (s.save ++ rest) = some (s, rest) :=
+  LogSeq.load_save s hb hn hd rest
+
+/-- **DAC_VLS direct access**: for every list of non-empty sequences — any number, any lengths,
+any symbol values — `access(i+1)` walks the levels by rank arithmetic and returns exactly the
+`i`-th sequence, every array read in bounds (the result is `some`). The model is the C++
+constructor's layout (levels, `levelsIndex`, continuation bitmap with its final mark, `rankLevels`)
+and access loop; the correspondence compares that layout and every access with the real object. -/
+theorem dac_access_returns_sequence (L : List (List Nat)) (hall : ∀ s ∈ L, s ≠ [])
+    (i : Nat) (hi : i < L.length) : DAC.access (DAC.build L) (i + 1) = some L[i] :=
+  DAC.access_build L i hi hall
+
+/-- Non-vacuity of the DAC hypotheses, and what the theorem says on a ragged list. -/
+example : (∀ s ∈ ([[5], [7, 8, 9], [1, 2]] : List (List Nat)), s ≠ []) ∧
+    DAC.access (DAC.build [[5], [7, 8, 9], [1, 2]]) 2 = some [7, 8, 9] := by decide
 
 /-- Non-vacuity: a 50-bit field at index 1 straddles words 0 and 1. -/
 example : (1 * 50 + 50 ≤ 64 * (LogSeq.mk 50 2).data.length) ∧ (1 * 50) % 64 + 50 > 64 := by decide
